@@ -321,6 +321,13 @@ theorem subscribeFinish_grant (rt : Routing) (svc : Nat) (t : Int) (x : Str) (th
   · exact ⟨g, by simp [subscribeFinish, guards_pinned.1, hk]⟩
   · exact ⟨g, by simp [subscribeFinish, guards_pinned.1, hk]⟩
 
+/-- a 200 carrying a SID grants it whatever the TIMEOUT header says (the conversion is guarded: F09b) -/
+theorem grant_any_timeout (rt : Routing) (svc : Nat) (t : Int) (x : Str) (th : Option Str) :
+    ∃ g, subscribeFinish rt svc t (.resp 200 (some x) th) = (set rt x svc, .sub x g) := by
+  rcases parse_total th with hk | ⟨n, hk⟩
+  · exact ⟨t, by simp [subscribeFinish, guards_pinned.1, hk]⟩
+  · exact ⟨n, by simp [subscribeFinish, guards_pinned.1, hk]⟩
+
 /-- a response that grants nothing leaves the routing table alone and the call raises -/
 theorem subscribeFinish_nogrant (rt : Routing) (svc : Nat) (t : Int) (r : Reaction)
     (hr : ∀ x th, r ≠ .resp 200 (some x) th) :
